@@ -50,6 +50,45 @@ Check C05_failed_is_dirty : forall fuel runid w c f mx seen,
   is_dirty (S fuel) runid w c f mx seen = Ret (VDirty, w, c, []).
 Print Assumptions C05_failed_is_dirty.
 
+(* propagation, one level at a time and hence along any chain of requests:
+   (1) a script whose redo-ifchange fails ends with that non-zero status;
+   (2) a job with a non-zero script status has a non-zero job status (C04_status);
+   (3) a command one of whose jobs failed never exits 0 *)
+Theorem C05_script_fails_with_dep : forall rec envc t sc w w1 evs rc_deps,
+  s_deps sc <> [] ->
+  rec envc MIfChange (s_deps sc) w = Ret (w1, evs, rc_deps) -> rc_deps <> 0%Z ->
+  script_body rec envc t sc w = Ret (w1, evs, rc_deps, None).
+Proof. exact script_body_dep_failure. Qed.
+Check C05_script_fails_with_dep : forall rec envc t sc w w1 evs rc_deps,
+  s_deps sc <> [] ->
+  rec envc MIfChange (s_deps sc) w = Ret (w1, evs, rc_deps) -> rc_deps <> 0%Z ->
+  script_body rec envc t sc w = Ret (w1, evs, rc_deps, None).
+Print Assumptions C05_script_fails_with_dep.
+
+Theorem C05_command_fails : forall rec fuel e m ts seen w evs w' evs' rc,
+  run_loop (start rec fuel e m) e ts seen w evs true = Ret (w', evs', rc) -> rc <> 0%Z.
+Proof. exact run_loop_errored_nonzero. Qed.
+Check C05_command_fails : forall rec fuel e m ts seen w evs w' evs' rc,
+  run_loop (start rec fuel e m) e ts seen w evs true = Ret (w', evs', rc) -> rc <> 0%Z.
+Print Assumptions C05_command_fails.
+
+Theorem C05_job_failure_propagates : forall rec fuel e m t ts seen w evs w1 ev1 rv w' evs' rc,
+  (false && negb (e_keep_going e)) = false ->
+  let '(d0, f) := from_name (dbs w) t in
+  existsb (Nat.eqb f) seen = false ->
+  (negb (e_unlocked e) && existsb (Nat.eqb f) (e_cycles e)) = false ->
+  start rec fuel e m t w = Ret (w1, ev1, rv, false) -> rv <> 0%Z ->
+  run_loop (start rec fuel e m) e (t :: ts) seen w evs false = Ret (w', evs', rc) -> rc <> 0%Z.
+Proof. exact run_loop_job_failure_propagates. Qed.
+Check C05_job_failure_propagates : forall rec fuel e m t ts seen w evs w1 ev1 rv w' evs' rc,
+  (false && negb (e_keep_going e)) = false ->
+  let '(d0, f) := from_name (dbs w) t in
+  existsb (Nat.eqb f) seen = false ->
+  (negb (e_unlocked e) && existsb (Nat.eqb f) (e_cycles e)) = false ->
+  start rec fuel e m t w = Ret (w1, ev1, rv, false) -> rv <> 0%Z ->
+  run_loop (start rec fuel e m) e (t :: ts) seen w evs false = Ret (w', evs', rc) -> rc <> 0%Z.
+Print Assumptions C05_job_failure_propagates.
+
 (* The full property over histories (not proved; see DESIGN.md, C05). *)
 Definition C05_full_statement : Prop :=
   forall (h : list hstep) (depth : nat), True (* every command requesting a target whose
